@@ -35,7 +35,8 @@ PROPS = {
     "C04": {"level": "exploration", "assumptions": SIM_ASSUME, "parts": [sim("TestC04")]},
     "C05": {"level": "exploration", "assumptions": SIM_ASSUME, "parts": [sim("TestC05")]},
     "C06": {"level": "exploration", "assumptions": SIM_ASSUME, "parts": [sim("TestC06")]},
-    "C07": {"level": "exploration", "assumptions": SIM_ASSUME, "parts": [sim("TestC07Sim")]},
+    "C07": {"level": "exploration", "assumptions": SIM_ASSUME, "parts": [sim("TestC07Sim"),
+                                                                               {"pkg": "sim", "test": "TestC07Real", "quick": {"checks": 4, "shards": 1, "shrink": "5s", "timeout": "10m"}, "thorough": {"checks": 60, "shards": 4, "shrink": "30s", "timeout": "2h"}}]},
     "C08": {"level": "exploration", "assumptions": SIM_ASSUME, "parts": [sim("TestC08", q=(300, 4), t=(4000, 16))]},
     "C09": {"level": "fault_enumeration", "min_nontrivial": 10,
             "assumptions": ["the kernel's rename(2) is atomic; durability against power loss (no fsync) is outside the statement", "strace syscall fault injection (thorough and quick fault part); SIGKILL as the crash model", "snapshots are produced by a pure function shared by the saving child and the checking parent"],
